@@ -1,4 +1,5 @@
 import LitexProofs.Wishbone.Interconnect
+import LitexModel.Wishbone.InterconnectSoc
 /-
   C06 — Wishbone interconnect routes each cycle to one slave and answers only its master.
 
@@ -702,5 +703,138 @@ theorem p2p_transparent (x : BusIn) :
     (P2P.out () x).toS 0 = x.ms 0 ∧ (P2P.out () x).toM 0 = x.ss 0 := ⟨rfl, rfl⟩
 
 end CrossbarExamples
+
+/-! ## SoC glue: which fabric `SoCBusHandler.do_finalize` instantiates, and routing through it -/
+section SocThms
+
+/-- **What the code guarantees about point-to-point**: it is chosen exactly for one master, one slave and
+    that slave's region starting at address 0 — nothing is checked about the region's size. -/
+theorem busTopology_p2p_iff (n m o : Nat) (k : BusKind) :
+    busTopology n m o k = .p2p ↔ n = 1 ∧ m = 1 ∧ o = 0 := by
+  unfold busTopology
+  by_cases h0 : n = 0 ∨ m = 0
+  · simp [h0]; omega
+  · by_cases h1 : n = 1 ∧ m = 1 ∧ o = 0
+    · simp [h1]
+    · cases k <;> simp [h0, h1]
+
+/-- No interconnect iff there is no master or no slave; otherwise, outside the point-to-point case, the configured
+    kind (shared bus with decoder and timeout, or crossbar) is built. -/
+theorem busTopology_other (n m o : Nat) (k : BusKind) :
+    (busTopology n m o k = .none ↔ n = 0 ∨ m = 0) ∧
+    (n ≠ 0 → m ≠ 0 → ¬ (n = 1 ∧ m = 1 ∧ o = 0) →
+      busTopology n m o k = match k with | .shared => .shared | .crossbar => .crossbar) := by
+  unfold busTopology
+  constructor
+  · by_cases h0 : n = 0 ∨ m = 0
+    · simp [h0]
+    · by_cases h1 : n = 1 ∧ m = 1 ∧ o = 0
+      · simp [h1]
+      · cases k <;> simp [h0, h1]
+  · intro hn hm h1
+    have h0 : ¬ (n = 0 ∨ m = 0) := by omega
+    rw [if_neg h0, if_neg h1]
+    cases k <;> rfl
+
+/-- A lone slave mapped at a non-zero origin always gets a decoder:
+    the guard whose removal is seeded change C06-m3. -/
+theorem busTopology_nonzero_origin_decoded (n m o : Nat) (k : BusKind) (ho : o ≠ 0) :
+    busTopology n m o k ≠ .p2p := by
+  intro h
+  exact ho ((busTopology_p2p_iff n m o k).1 h).2.2
+
+/-- The bus keeps the shape selected at elaboration. -/
+theorem soc_wf_run (c : SocCfg) (ins : List BusIn) : SocBus.WF c ((SocBus.machine c).run ins) := by
+  unfold Machine.run
+  apply Machine.invariant_runFrom (SocBus.machine c) (SocBus.WF c)
+  · intro s x h
+    unfold SocBus.WF at *
+    rw [← h]
+    cases s <;> rfl
+  · unfold SocBus.WF
+    simp only [SocBus.machine, SocBus.init]
+    cases c.topology <;> rfl
+
+/-- FULL STATEMENT (does not hold, see the witness below): for every SoC bus, slave `j` sees `cyc` iff its
+    owner drives `cyc` with an address inside slave `j`'s region predicate.
+    It holds for the shared bus and the crossbar unconditionally (`wb_route`, `xb_route`); for the
+    point-to-point wiring it needs `hcov`: the lone slave's predicate is true at every address (the region
+    decodes the whole space). -/
+theorem soc_route_partial (c : SocCfg)
+    (hcov : c.topology = .p2p → ∀ a, c.dec 0 a = true)
+    (s : SocState) (hwf : SocBus.WF c s) (x : BusIn) (hn : 0 < c.n) (j : Nat) (hj : j < c.m) :
+    let o := SocBus.out c s x
+    let own := x.ms (SocBus.owner s j)
+    (o.toS j).cyc = (own.cyc && c.dec j own.adr) ∧
+    (o.toS j).stb = own.stb ∧ (o.toS j).we = own.we ∧ (o.toS j).adr = own.adr ∧
+    (o.toS j).datW = own.datW ∧ (o.toS j).sel = own.sel ∧ (o.toS j).cti = own.cti ∧ (o.toS j).bte = own.bte := by
+  cases s with
+  | idle =>
+    -- no interconnect is built only without masters or without slaves: excluded by `hn`, `hj`
+    have ht : c.topology = .none := hwf.symm
+    have := (busTopology_other c.n c.m c.slaveOrigin c.kind).1.1 ht
+    omega
+  | p2p =>
+    have ht : c.topology = .p2p := hwf.symm
+    have hm : c.m = 1 := ((busTopology_p2p_iff _ _ _ _).1 ht).2.1
+    have hj0 : j = 0 := by omega
+    subst hj0
+    simp [SocBus.out, SocBus.owner, P2P.out, hcov ht]
+  | sh s' => exact wb_route c.sh s' x j
+  | xb s' => exact xb_route c.xb s' x j
+
+/-- The same along every run of the real bus from reset. -/
+theorem soc_route_run_partial (c : SocCfg) (hcov : c.topology = .p2p → ∀ a, c.dec 0 a = true)
+    (ins : List BusIn) (x : BusIn) (hn : 0 < c.n) (j : Nat) (hj : j < c.m) :
+    let s := (SocBus.machine c).run ins
+    let own := x.ms (SocBus.owner s j)
+    ((SocBus.out c s x).toS j).cyc = (own.cyc && c.dec j own.adr) :=
+  (soc_route_partial c hcov _ (soc_wf_run c ins) x hn j hj).1
+
+/-- `hcov` is met as coded when the lone slave's region starts at 0 and its (rounded) size is the whole address
+    space: `SoCRegion.decoder` then returns `lambda a: True`. -/
+theorem soc_hcov_whole_space (c : SocCfg) (size : Nat) (hr : c.regions = [(0, size)])
+    (hsz : 2 ^ clog2 size = 2 ^ c.aw) : ∀ a, c.dec 0 a = true := by
+  intro a
+  simp [SocCfg.dec, hr, regionDec, hsz]
+
+/-- A bus whose (first) slave is mapped at a NON-ZERO origin always gets a decoder, so a cycle outside the regions
+    reaches no slave — unconditionally (no `hcov` needed), whatever other regions exist. -/
+theorem soc_nonzero_origin_routed (c : SocCfg) (ho : c.slaveOrigin ≠ 0) (s : SocState) (hwf : SocBus.WF c s)
+    (x : BusIn) (hn : 0 < c.n) (j : Nat) (hj : j < c.m) :
+    ((SocBus.out c s x).toS j).cyc = ((x.ms (SocBus.owner s j)).cyc && c.dec j (x.ms (SocBus.owner s j)).adr) :=
+  (soc_route_partial c (fun h => absurd h (busTopology_nonzero_origin_decoded _ _ _ _ ho)) s hwf x hn j hj).1
+
+end SocThms
+
+/-! ### Witnesses for the SoC glue -/
+section SocExamples
+
+/-- 32-bit bus, one master, one slave: region [0x10000000, +0x1000). -/
+def socA : SocCfg :=
+  { n := 1, regions := [(0x10000000, 0x1000)], kind := .shared, reg := true,
+    timeout := some 8, dw := 32, aw := 32 }
+/-- One master, one slave: region [0, +0x1000), much smaller than the 4 GiB space. -/
+def socW1 : SocCfg := { socA with regions := [(0, 0x1000)] }
+
+/-- A read of byte address 0x2000 (word address 0x800): outside all of the regions above. -/
+def xOut : BusIn := { ms := fun _ => { cyc := true, stb := true, adr := 0x800 }, ss := fun _ => {} }
+/-- A read of byte address 0x10000004. -/
+def xIn : BusIn := { ms := fun _ => { cyc := true, stb := true, adr := 0x4000001 }, ss := fun _ => {} }
+
+/-- Non-vacuity: the non-zero-origin 1×1 bus gets a shared interconnect with decoder; the inside address reaches
+    the slave, the outside address does not. -/
+example :
+    socA.topology = .shared ∧ socA.dec 0 0x4000001 = true ∧ socA.dec 0 0x800 = false ∧
+    ((SocBus.out socA (SocBus.init socA) xIn).toS 0).cyc = true ∧
+    ((SocBus.out socA (SocBus.init socA) xOut).toS 0).cyc = false := by decide
+
+/-- **Negative witness** (open finding `C06-p2p-partial-region-origin0`, unchanged tree): region [0, +0x1000) →
+    point-to-point, and the cycle at 0x2000, which the region predicate rejects, is presented to the slave. -/
+example :
+    socW1.topology = .p2p ∧ socW1.dec 0 0x800 = false ∧
+    ((SocBus.out socW1 (SocBus.init socW1) xOut).toS 0).cyc = true := by decide
+
+end SocExamples
 
 end Litex.C06
